@@ -14,19 +14,38 @@ inductive KRel : K → K → Prop where
   | refl (k : K) : KRel k k
   | idx {i c v x} : i.simple = true → simpleVal i c v = some x → KRel (.idxL x) (.idxR i c v)
 
-/-- in-step states (world-free): the iterator `it` and the residual stream `th` deliver the same -/
-inductive Sync (D : List T) : It → Th → Prop where
-  | nil : Sync D .nil .nil
-  | once (x : Item) : Sync D (.once x) (.ret x)
-  | inputs : Sync D .inputs .inputs
-  | range (c t b : Int) : Sync D (.range c t b) (.range c t b)
-  | chain {a a' t c v} : Sync D a a' → Sync D (.chain a t c v) (.app a' (.run t c v))
-  | flat {src src' cur cur' k k'} : KRel k k' → Sync D src src' → Sync D cur cur' →
-      Sync D (.flat src k cur) (.app cur' (.bind src' k'))
-  | flat0 {src src' k k'} : KRel k k' → Sync D src src' → Sync D (.flat src k .nil) (.bind src' k')
-  | wrap {a a'} (s : Wr) : Sync D a a' → Sync D (.wrap s a) (.wrapC s a')
-  | appDead {it th rest} : Sync D it th → Dead D rest → Sync D it (.app th rest)
-  | dead {th} : Dead D th → Sync D .nil th
+/-- what is related: streams, the agenda/stack of a fold, the source of the list of a fold -/
+inductive Mode where
+  | stream | stack | src
+
+/-- in-step states (world-free): the iterator `it` and the residual stream `th` deliver the same.
+Mode `stack`: the explicit stack of `fold` against the reference's agenda (the interpreter drops
+exhausted `Output` frames early: `sDrop`); mode `src`: the iterator under the lazy list against
+the reference's stream of `xs` (in step, or both not started: `srcFresh`). -/
+inductive SyncG (D : List T) : Mode → It → Th → Prop where
+  | nil : SyncG D .stream .nil .nil
+  | once (x : Item) : SyncG D .stream (.once x) (.ret x)
+  | inputs : SyncG D .stream .inputs .inputs
+  | range (c t b : Int) : SyncG D .stream (.range c t b) (.range c t b)
+  | chain {a a' t c v} : SyncG D .stream a a' → SyncG D .stream (.chain a t c v) (.app a' (.run t c v))
+  | flat {src src' cur cur' k k'} : KRel k k' → SyncG D .stream src src' → SyncG D .stream cur cur' →
+      SyncG D .stream (.flat src k cur) (.app cur' (.bind src' k'))
+  | flat0 {src src' k k'} : KRel k k' → SyncG D .stream src src' → SyncG D .stream (.flat src k .nil) (.bind src' k')
+  | wrap {a a'} (s : Wr) : SyncG D .stream a a' → SyncG D .stream (.wrap s a) (.wrapC s a')
+  | appDead {it th rest} : SyncG D .stream it th → Dead D rest → SyncG D .stream it (.app th rest)
+  | dead {th} : Dead D th → SyncG D .stream .nil th
+  | fold {kind upd ctx cells src src' ended ini ini' stk stk'} :
+      SyncG D .src src src' → SyncG D .stream ini ini' → SyncG D .stack stk stk' →
+      SyncG D .stream (.fold kind upd ctx cells src ended ini stk) (.fold kind upd ctx cells src' ended ini' stk')
+  | srcSync {a a'} : SyncG D .stream a a' → SyncG D .src a a'
+  | srcFresh {t c v it} : (∀ w, MkR D t c v w (it, w)) → SyncG D .src it (.run t c v)
+  | sNil : SyncG D .stack .nil .nil
+  | sInp {pos y rest rest'} : SyncG D .stack rest rest' → SyncG D .stack (.fInp pos y rest) (.fInp pos y rest')
+  | sOut {pos x ys ys' rest rest'} : SyncG D .stream ys ys' → SyncG D .stack rest rest' →
+      SyncG D .stack (.fOut pos x ys rest) (.fOut pos x ys' rest')
+  | sDrop {pos x ys' rest rest'} : Dead D ys' → SyncG D .stack rest rest' → SyncG D .stack rest (.fOut pos x ys' rest')
+
+abbrev Sync (D : List T) : It → Th → Prop := SyncG D .stream
 
 /-- states whose construction ran ahead: the iterator at world `wi` corresponds to the residual
 at world `ws` (the reference has not yet performed what building the iterator performed) -/
@@ -41,6 +60,15 @@ inductive Rel (D : List T) : It → World → Th → World → Prop where
   | appDead {it wi th ws rest} : Rel D it wi th ws → Dead D rest → Rel D it wi (.app th rest) ws
   | idxS {i c v x} (y : Val) (w : World) : i.simple = true → simpleVal i c v = some x →
       Rel D (.once (indexItem y x)) w (.run (.pipe i (.idxOf y)) c v) w
+  | foldIni {kind upd ctx cells src src' ended ini wi ini' ws} : SyncG D .src src src' → Rel D ini wi ini' ws →
+      Rel D (.fold kind upd ctx cells src ended ini .nil) wi (.fold kind upd ctx cells src' ended ini' .nil) ws
+  | foldFast {kind upd ctx cells src src' ended ini' wi ws i th'} : SyncG D .src src src' →
+      (∃ n, force D n ini' ws = some (.yield (.ok i) th', wi)) → Dead D th' →
+      Rel D (.fold kind upd ctx cells src ended .nil (.fInp 0 i .nil)) wi (.fold kind upd ctx cells src' ended ini' .nil) ws
+  | foldTop {kind upd ctx cells src src' ended ini ini' pos x ys wi ys' ws rest rest'} :
+      SyncG D .src src src' → Sync D ini ini' → Rel D ys wi ys' ws → SyncG D .stack rest rest' →
+      Rel D (.fold kind upd ctx cells src ended ini (.fOut pos x ys rest)) wi
+        (.fold kind upd ctx cells src' ended ini' (.fOut pos x ys' rest')) ws
 
 /-- what one pull of the iterator must deliver for a given result of the reference -/
 def Matches (D : List T) (r : Step × World) (it : It) (wi : World) : Prop :=
@@ -72,34 +100,55 @@ theorem dead_bind {a : Th} (k : K) (ha : Dead D a) : Dead D (.bind a k) := by
   obtain ⟨n1, h1⟩ := ha w
   exact ⟨n1 + 1, by rw [force_succ]; simp only [forceStep, h1]⟩
 
-theorem dead_wrap {a : Th} (s : Wr) (ha : Dead D a) : Dead D (.wrapC s a) := by
+theorem dead_wrap {a : Th} (s : Wr) (he : s.atEnd = none) (ha : Dead D a) : Dead D (.wrapC s a) := by
   intro w
   obtain ⟨n1, h1⟩ := ha w
   refine ⟨n1 + 1, ?_⟩
   rw [force_succ]
   by_cases hs : s.ready = true
-  · simp only [forceStep, hs, h1, if_true]
+  · simp only [forceStep, hs, h1, he, if_true]
   · simp only [forceStep, hs]; rfl
 
+theorem transparent_atEnd {s : Wr} (hs : s.transparent = true) : s.atEnd = none := by
+  cases s <;> simp [Wr.transparent] at hs <;> rfl
+
+/-- a fold whose `init` is over and whose agenda is empty is over -/
+theorem dead_foldEmpty {kind upd ctx cells src ended} {ini : Th} (h : Dead D ini) :
+    Dead D (.fold kind upd ctx cells src ended ini .nil) := by
+  intro w
+  obtain ⟨n1, h1⟩ := h w
+  exact ⟨n1 + 1, by rw [force_succ]; simp only [forceStep, h1]⟩
+
 /-- `size_hint` is honest: an iterator whose upper bound is 0 is in step with a dead residual -/
-theorem sync_upper0_dead : ∀ {it : It} {th : Th}, Sync D it th → it.upper = some 0 → Dead D th := by
-  intro it th h
+theorem sync_upper0_dead_aux : ∀ {m : Mode} {it : It} {th : Th}, SyncG D m it th → m = .stream → it.upper = some 0 → Dead D th := by
+  intro m it th h
   induction h with
-  | nil => intro _; exact dead_nil
-  | once x => intro h; simp [It.upper] at h
-  | inputs => intro h; simp [It.upper] at h
-  | range _ _ _ => intro h; simp [It.upper] at h
-  | chain _ _ => intro h; simp [It.upper] at h
-  | flat _ _ _ _ _ => intro h; simp [It.upper] at h
-  | flat0 _ _ _ => intro h; simp [It.upper] at h
+  | nil => intro _ _; exact dead_nil
+  | once x => intro _ h; simp [It.upper] at h
+  | inputs => intro _ h; simp [It.upper] at h
+  | range _ _ _ => intro _ h; simp [It.upper] at h
+  | chain _ _ => intro _ h; simp [It.upper] at h
+  | flat _ _ _ _ _ => intro _ h; simp [It.upper] at h
+  | flat0 _ _ _ => intro _ h; simp [It.upper] at h
   | wrap s _ ih =>
-    intro h
+    intro _ h
     simp only [It.upper] at h
     split at h
-    · exact dead_wrap s (ih h)
+    · rename_i hs
+      exact dead_wrap s (transparent_atEnd hs) (ih rfl h)
     · simp at h
-  | appDead _ hd ih => intro h; exact dead_app (ih h) hd
-  | dead hd => intro _; exact hd
+  | appDead _ hd ih => intro _ h; exact dead_app (ih rfl h) hd
+  | dead hd => intro _ _; exact hd
+  | fold _ _ _ _ _ _ => intro _ h; simp [It.upper] at h
+  | srcSync _ _ => intro h; cases h
+  | srcFresh _ => intro h; cases h
+  | sNil => intro h; cases h
+  | sInp _ _ => intro h; cases h
+  | sOut _ _ _ _ => intro h; cases h
+  | sDrop _ _ _ => intro h; cases h
+
+theorem sync_upper0_dead {it : It} {th : Th} (h : Sync D it th) (hu : it.upper = some 0) : Dead D th :=
+  sync_upper0_dead_aux h rfl hu
 
 
 /-! ### purity of index filters is preserved by the reference -/
@@ -109,7 +158,7 @@ theorem step_pure {s : Wr} (hs : s.pureIdx = true) (x : Item) :
     | .emit _ s' => s'.pureIdx = true
     | .drop s' => s'.pureIdx = true
     | .stop => True
-    | .handler c _ _ => c.pureIdx = true := by
+    | .handler c ctx _ => c.pureIdx = true ∧ ctx.pure = true := by
   cases s with
   | limit n => cases n <;> simp [Wr.step, Wr.pureIdx]
   | skip n => cases n <;> cases x <;> simp [Wr.step, Wr.pureIdx]
@@ -124,6 +173,8 @@ theorem step_pure {s : Wr} (hs : s.pureIdx = true) (x : Item) :
   | filt => cases hk : x.keep <;> simp [Wr.step, hk, Wr.pureIdx]
   | toBool => cases x <;> simp [Wr.step, Wr.pureIdx]
   | stack => simp [Wr.step, Wr.pureIdx]
+  | collect acc => cases x <;> simp [Wr.step, Wr.pureIdx]
+  | mathL op l => simp [Wr.step, Wr.pureIdx]
 
 def PureStep (g : Th → World → ForceRes) : Prop :=
   ∀ th w x th' w', th.pureIdx = true → g th w = some (.yield x th', w') → th'.pureIdx = true
@@ -142,6 +193,46 @@ macro_rules
             (try (rename_i heq; have hq := hg _ _ _ _ _ (by simp_all [Th.pureIdx, T.pureIdx, K.pureIdx, Wr.pureIdx]) heq)) <;>
             pure1))
 
+theorem foldEndS_pure {g : Th → World → ForceRes} (hg : PureStep g) {kind upd ctx cells src ended ini y rest w x th' w'}
+    (hp : (Th.fold kind upd ctx cells src ended ini rest).pureIdx = true)
+    (h : foldEndS g kind upd ctx cells src ended ini y rest w = some (.yield x th', w')) : th'.pureIdx = true := by
+  unfold foldEndS at h
+  split at h
+  · simp only [Option.some.injEq, Prod.mk.injEq, Step.yield.injEq] at h
+    obtain ⟨⟨_, rfl⟩, _⟩ := h
+    exact hp
+  · exact hg _ _ _ _ _ hp h
+
+theorem foldCellS_pure {g : Th → World → ForceRes} (hg : PureStep g) {kind upd ctx cells cells0 src ended ini pos y rest cell w x th' w'}
+    (hp : (Th.fold kind upd ctx cells0 src ended ini rest).pureIdx = true)
+    (h : foldCellS g kind upd ctx cells src ended ini pos y rest cell w = some (.yield x th', w')) : th'.pureIdx = true := by
+  unfold foldCellS at h
+  simp only [Th.pureIdx, Bool.and_eq_true] at hp
+  split at h
+  · exact hg _ _ _ _ _ (by simp [Th.pureIdx, hp.1.1.1.1, hp.1.1.1.2, hp.1.1.2, hp.1.2, hp.2]) h
+  · simp only [Option.some.injEq, Prod.mk.injEq, Step.yield.injEq] at h
+    obtain ⟨⟨_, rfl⟩, _⟩ := h
+    simp [Th.pureIdx, hp.1.1.1.1, hp.1.1.1.2, hp.1.1.2, hp.1.2, hp.2]
+
+theorem foldOutS_pure {g : Th → World → ForceRes} (hg : PureStep g) {kind upd ctx cells src ended ini pos x0 yi rest w x th' w'}
+    (hp : (Th.fold kind upd ctx cells src ended ini rest).pureIdx = true)
+    (h : foldOutS g kind upd ctx cells src ended ini pos x0 yi rest w = some (.yield x th', w')) : th'.pureIdx = true := by
+  unfold foldOutS at h
+  have hp' : ∀ yv, (Th.fold kind upd ctx cells src ended ini (.fInp pos yv rest)).pureIdx = true := by
+    intro yv; simpa [Th.pureIdx] using hp
+  split at h
+  · split at h
+    · exact hg _ _ _ _ _ (hp' _) h
+    · simp only [Option.some.injEq, Prod.mk.injEq, Step.yield.injEq] at h
+      obtain ⟨⟨_, rfl⟩, _⟩ := h
+      exact hp' _
+    · simp only [Option.some.injEq, Prod.mk.injEq, Step.yield.injEq] at h
+      obtain ⟨⟨_, rfl⟩, _⟩ := h
+      exact hp' _
+  · simp only [Option.some.injEq, Prod.mk.injEq, Step.yield.injEq] at h
+    obtain ⟨⟨_, rfl⟩, _⟩ := h
+    exact hp
+
 theorem forceStep_pure (hD : DPure D) {g : Th → World → ForceRes} (hg : PureStep g)
     {th w x th' w'} (hp : th.pureIdx = true) (h : forceStep D g th w = some (.yield x th', w')) :
     th'.pureIdx = true := by
@@ -152,7 +243,11 @@ theorem forceStep_pure (hD : DPure D) {g : Th → World → ForceRes} (hg : Pure
     split at h
     · split at h
       · simp at h
-      · simp at h
+      · split at h
+        · simp at h
+        · simp only [Option.some.injEq, Prod.mk.injEq, Step.yield.injEq] at h
+          obtain ⟨⟨_, rfl⟩, _⟩ := h
+          rfl
       · rename_i x0 a' w1 heq
         have hq := hg _ _ _ _ _ hp.2 heq
         have hsp := step_pure hp.1 x0
@@ -170,7 +265,51 @@ theorem forceStep_pure (hD : DPure D) {g : Th → World → ForceRes} (hg : Pure
           rw [hst] at hsp
           exact hg _ _ _ _ _ (by simpa [Th.pureIdx] using hsp) h
     · simp at h
+  | fold kind upd ctx cells src ended ini stack =>
+    have hp0 := hp
+    simp only [Th.pureIdx, Bool.and_eq_true] at hp
+    obtain ⟨⟨⟨⟨hu, hc⟩, hsrc⟩, hini⟩, hstk⟩ := hp
+    simp only [forceStep] at h
+    split at h
+    · -- fInp
+      rename_i pos y rest
+      have hrest : rest.pureIdx = true := by simpa [Th.pureIdx] using hstk
+      have hpr : ∀ cells' src' e', src'.pureIdx = true → (Th.fold kind upd ctx cells' src' e' ini rest).pureIdx = true := by
+        intro cells' src' e' hs'; simp [Th.pureIdx, hu, hc, hs', hini, hrest]
+      split at h
+      · exact foldCellS_pure hg (hpr cells src ended hsrc) h
+      · split at h
+        · exact foldEndS_pure hg (hpr cells src ended hsrc) h
+        · split at h
+          · simp at h
+          · exact foldEndS_pure hg (hpr cells .nil true rfl) h
+          · rename_i x0 src' w1 heq
+            exact foldCellS_pure hg (hpr (cells ++ [x0]) src' false (hg _ _ _ _ _ hsrc heq)) h
+    · -- fOut
+      rename_i pos x0 ys rest
+      simp only [Th.pureIdx, Bool.and_eq_true] at hstk
+      split at h
+      · simp at h
+      · exact hg _ _ _ _ _ (by simp [Th.pureIdx, hu, hc, hsrc, hini, hstk.2]) h
+      · rename_i yi ys' w1 heq
+        have hq := hg _ _ _ _ _ hstk.1 heq
+        exact foldOutS_pure hg (by simp [Th.pureIdx, hu, hc, hsrc, hini, hstk.2, hq]) h
+    · -- empty agenda
+      split at h
+      · simp at h
+      · simp at h
+      · rename_i x0 ini' w1 heq
+        have hq := hg _ _ _ _ _ hini heq
+        split at h
+        · exact hg _ _ _ _ _ (by simp [Th.pureIdx, hu, hc, hsrc, hq]) h
+        · simp only [Option.some.injEq, Prod.mk.injEq, Step.yield.injEq] at h
+          obtain ⟨⟨_, rfl⟩, _⟩ := h
+          simp [Th.pureIdx, hu, hc, hsrc, hq]
+  | fInp _ _ _ => simp [forceStep] at h
+  | fOut _ _ _ _ => simp [forceStep] at h
   | run t c v =>
+    simp only [Th.pureIdx, Bool.and_eq_true] at hp
+    obtain ⟨hpt, hpc⟩ := hp
     cases t with
     | call i =>
       simp only [forceStep] at h
@@ -178,6 +317,40 @@ theorem forceStep_pure (hD : DPure D) {g : Th → World → ForceRes} (hg : Pure
       · rename_i body hb
         exact hg _ _ _ _ _ (by simpa [Th.pureIdx, Wr.pureIdx] using hD _ _ hb) h
       · simp at h
+    | fvar i =>
+      simp only [forceStep] at h
+      split at h
+      · rename_i t env hl
+        have := lookupFn_pure hpc hl
+        exact hg _ _ _ _ _ (by simp [Th.pureIdx, this.1, this.2]) h
+      · simp at h
+    | callA ty i skip args =>
+      simp only [T.pureIdx] at hpt
+      simp only [forceStep] at h
+      split at h
+      · simp at h
+      · rename_i c' hc'
+        have hcp := callCtx_pure hpc hpt hc'
+        split at h
+        · rename_i body hb
+          split at h
+          · exact hg _ _ _ _ _ (by simp [Th.pureIdx, hD _ _ hb, hcp]) h
+          · exact hg _ _ _ _ _ (by simp [Th.pureIdx, Wr.pureIdx, hD _ _ hb, hcp]) h
+        · simp at h
+    | tcallA i skip args =>
+      simp only [T.pureIdx] at hpt
+      simp only [forceStep] at h
+      split at h
+      · simp at h
+      · rename_i c' hc'
+        have hcp := callCtx_pure hpc hpt hc'
+        exact hg _ _ _ _ _ (by simp [Th.pureIdx, T.pureIdx, T.pureArgs, hcp]) h
+    | fold kind xs i u p =>
+      simp only [T.pureIdx, Bool.and_eq_true] at hpt
+      simp only [forceStep] at h
+      split at h
+      · exact hg _ _ _ _ _ (by simp [Th.pureIdx, K.pureIdx, hpt.1.1.1.2, hpt.1.1.2, hpt.1.2, hpt.2, hpc]) h
+      · exact hg _ _ _ _ _ (by simp [Th.pureIdx, hpt.1.1.1.2, hpt.1.1.2, hpt.1.2, hpc]) h
     | _ => simp only [forceStep] at h <;> pure1
   | _ => simp only [forceStep] at h <;> pure1
 
@@ -203,6 +376,7 @@ theorem step_transparent {s : Wr} (hs : s.transparent = true) (x : Item) :
     | _ => simp [Wr.step, Wr.transparent]
   | filt => cases hk : x.keep <;> simp [Wr.step, hk, Wr.transparent]
   | toBool => cases x <;> simp [Wr.step, Wr.transparent]
+  | mathL op l => simp [Wr.step, Wr.transparent]
   | _ => simp [Wr.transparent] at hs
 
 theorem upper_dec : ∀ (n : Nat) {it : It} {w : World} {x : Item} {it' : It} {w' : World} {u : Nat},
@@ -239,7 +413,7 @@ theorem upper_dec : ∀ (n : Nat) {it : It} {w : World} {x : Item} {it' : It} {w
         split at h
         · split at h
           · simp at h
-          · simp at h
+          · simp [transparent_atEnd hs] at h
           · rename_i x0 a' w1 heq
             obtain ⟨ua, hua, hlt⟩ := ih heq hu
             have hst := step_transparent hs x0
@@ -260,5 +434,20 @@ theorem upper_dec : ∀ (n : Nat) {it : It} {w : World} {x : Item} {it' : It} {w
               exact hst.elim
         · simp at h
       · simp at hu
+    | fold _ _ _ _ _ _ _ _ => simp [It.upper] at hu
+    | fInp _ _ _ => simp [It.upper] at hu
+    | fOut _ _ _ _ => simp [It.upper] at hu
+
+/-! ### the induction hypotheses of the simulation -/
+
+def A (D : List T) (n : Nat) : Prop := ∀ it wi th ws r, Rel D it wi th ws → th.pureIdx = true →
+  force D n th ws = some r → Matches D r it wi
+def B (D : List T) (n : Nat) : Prop := ∀ t c v w r, t.pureIdx = true → c.pure = true → force D n (.run t c v) w = some r →
+  ∃ it w', MkR D t c v w (it, w') ∧ Matches D r it w'
+
+theorem lowerA {n : Nat} (hA : A D (n + 1)) : A D n :=
+  fun it wi th ws r hr hp h => hA it wi th ws r hr hp (force_mono D _ _ _ _ h)
+theorem lowerB {n : Nat} (hB : B D (n + 1)) : B D n :=
+  fun t c v w r hp hc h => hB t c v w r hp hc (force_mono D _ _ _ _ h)
 
 end Jaq.C03
